@@ -17,6 +17,16 @@
 (*     node with EXCEPT !.items, so the order and the class travel with the node; what changes    *)
 (*     here is that observations are no longer brought into a canonical key order before they     *)
 (*     are compared (Series!Canon is not used any more).                                         *)
+(*                                                                                             *)
+(*  3. Bare arrays of any dtype.  A cell of a boolean array is VBool; an array that is NaN-padded *)
+(*     cannot stay boolean (or integer): named deviation BoolAsNumber - in a padded array True /   *)
+(*     False may come back as 1 / 0.  The padding itself must be NaN whatever the dtype was.       *)
+(*                                                                                             *)
+(*  4. A presync-decorated function is an OBJECT whose state is the policy it was decorated with  *)
+(*     [join, m, cols].  A call may carry call-time overrides (join = / method = / columns =); the  *)
+(*     policy in force for that call is the override where given, the decoration elsewhere, and    *)
+(*     the call leaves the object's policy as it was.  The variants f.ij / .oj / .lj / .rj /       *)
+(*     .ffill / .bfill are NEW objects; the object they were derived from keeps its policy.        *)
 EXTENDS Series
 
 \* ---------------------------------------------------------------------------------------------
@@ -41,14 +51,49 @@ SyncX(tree, pol, m, cp, reading) ==
         LET recol == Recolumns(tree, cp)
         IN  MapTs(tree, IndexOf(tree, pol), m, recol, IF recol THEN ColsOfX(tree, cp) ELSE {}, reading)
     ELSE Sync(tree, pol, m, "none", reading)          \* bare arrays / nothing to align: no columns involved
-SyncOutcomesX(tree, pol, m, cp) == {SyncX(tree, pol, m, cp, rd) : rd \in Readings}
+\* BoolAsNumber: the booleans of the arrays that were padded, as numbers
+NumCell(x) == IF Tag(x) = "b" THEN VFlt(Pay(x), 1) ELSE x
+RECURSIVE MapArrNum(_, _, _)
+MapArrNum(x, n, m) ==
+    IF IsCont(x) THEN [x EXCEPT !.items = [i \in 1..Len(x.items) |-> MapArrNum(x.items[i], n, m)]]
+    ELSE IF IsArr(x) THEN (LET r == AlignEnd(x, n, m) IN IF n > Len(x.v) THEN [r EXCEPT !.v = [p \in 1..n |-> NumCell(r.v[p])]] ELSE r)
+    ELSE x
+IsArraysX(tree, pol) == TsLeaves(tree) = <<>> /\ ArrLeaves(tree) # <<>> /\ (pol.how # "ex" \/ "n" \in DOMAIN pol)
+SyncOutcomesX(tree, pol, m, cp) ==
+    {SyncX(tree, pol, m, cp, rd) : rd \in Readings}
+    \cup (IF IsArraysX(tree, pol) THEN LET as == ArrLeaves(tree) IN {MapArrNum(tree, JointLen(pol, [i \in 1..Len(as) |-> Len(as[i].v)]), m)} ELSE {})
 
 \* presync: the call disciplines of Series!PresyncOutcomes, for every column policy
 PresyncOutcomesX(tree, pol, m, cp) ==
     IF ~Recolumns(tree, cp) \/ TsLeaves(tree) = <<>>
-    THEN {{Collapse(SyncX(tree, pol, m, NoCols, rd))} : rd \in Readings}
+    THEN {{Collapse(w)} : w \in SyncOutcomesX(tree, pol, m, NoCols)}
     ELSE {{Collapse(SyncX(tree, pol, m, cp, rd))} : rd \in Readings}
          \cup {{ColView(SyncX(tree, pol, m, NoCols, rd), c, sc) : c \in ColsOfX(tree, cp)} : rd \in Readings, sc \in BOOLEAN}
+
+\* ---------------------------------------------------------------------------------------------
+\* presync-decorated functions as objects: decoration, call-time overrides, derived variants
+\* ---------------------------------------------------------------------------------------------
+\* a policy: [join |-> "ij" | "oj" | "lj" | "rj", m |-> "none" | "ffill" | "bfill", cols |-> "ij" | "oj" | "lj" | "rj"]
+\* an override: the same record, "-" where the call gives nothing
+NoOverride == [join |-> "-", m |-> "-", cols |-> "-"]
+Effective(dec, ov) == [join |-> IF ov.join = "-" THEN dec.join ELSE ov.join,
+                       m    |-> IF ov.m = "-" THEN dec.m ELSE ov.m,
+                       cols |-> IF ov.cols = "-" THEN dec.cols ELSE ov.cols]
+AfterCall(dec, ov) == dec                                  \* a call, with or without overrides, leaves the decoration as it is
+Variants == {"ij", "oj", "lj", "rj", "ffill", "bfill"}
+Variant(dec, v) == IF v \in {"ffill", "bfill"} THEN [dec EXCEPT !.m = v] ELSE [dec EXCEPT !.join = v]
+\* the admissible sets of calls of the decorated function for a call under policy p
+CallOutcomes(tree, p) == PresyncOutcomesX(tree, [how |-> p.join, t |-> <<>>], p.m, ColPol(p.cols))
+\* a history: <<step>>, step = [op |-> "call", f |-> object number, ov |-> override] | [op |-> "derive", f |-> object number, v |-> variant]
+\* (objects are numbered in the order of their creation, 1 = the decorated function itself)
+RECURSIVE ObjectsAfter(_, _, _)
+ObjectsAfter(objs, hist, n) ==          \* the policies of the objects after the first n steps
+    IF n = 0 THEN objs
+    ELSE LET before == ObjectsAfter(objs, hist, n - 1)  st == hist[n] IN
+         IF st.op = "derive" THEN Append(before, Variant(before[st.f], st.v))
+         ELSE [before EXCEPT ![st.f] = AfterCall(before[st.f], st.ov)]
+\* the policy in force for step n (a call) of the history of a function decorated with dec
+InForce(dec, hist, n) == Effective(ObjectsAfter(<<dec>>, hist, n - 1)[hist[n].f], hist[n].ov)
 
 \* ---------------------------------------------------------------------------------------------
 \* ordered dicts with a class
